@@ -99,6 +99,12 @@ func seriesGen() *rapid.Generator[series] {
 			src:  gostatsd.Source(rapid.SampledFrom([]string{"", "1.2.3.4"}).Draw(t, "source")),
 		}
 		s.tags = gostatsd.Tags(rapid.SliceOfNDistinct(rapid.SampledFrom([]string{"env:prod", "service:web", "x", "k:v", "host:h1", "statsdSource:z", "le:1", "a:b:c", "n:42"}), 0, 3, rapid.ID[string]).Draw(t, "tags"))
+		// many tags: backends with a limit on tags / dimensions / attributes per datum (9, 10, 11, 12, 30 extra ones)
+		if extra := rapid.SampledFrom([]int{0, 0, 0, 0, 6, 7, 8, 9, 30}).Draw(t, "many-tags"); extra > 0 {
+			for i := 0; i < extra; i++ {
+				s.tags = append(s.tags, fmt.Sprintf("t%d:%d", i, i))
+			}
+		}
 		if s.typ == gostatsd.TIMER && rapid.IntRange(0, 1).Draw(t, "hist") == 0 {
 			s.tags = append(s.tags, rapid.SampledFrom(histTags).Draw(t, "histtag"))
 		}
